@@ -2,7 +2,7 @@ import CddVerif.Py.Str
 /-!
 # Effect-trace model of `cdd exmod` — property C20
 
-Ported decision by decision from (line numbers of the working tree at the time of writing)
+Ported decision by decision from
 
 * `cdd/__main__.py`            : `exmod(mock_imports=False, **args_dict)`; `--emit` is `action="append"` ⇒ a *list*
 * `cdd/compound/exmod.py`      : `exmod`, `_create_sqlalchemy_mod`, `_add_imports_to_sqlalchemy_create_all`,
